@@ -286,10 +286,18 @@ def is_ct_sym(chars):
     return len(chars) >= 3 and bool(chars[0] == 0x36) and bool(chars[1] == 0x38) and bool(chars[2] == 0x35)
 
 
-def decode_and_compare(eng, ctx, meter, octets, form, label, only=None, both_forms=True):
-    """runs the real decoder on the (symbolic) octets and compares with the reference; then the other form of the same list"""
+def decode_and_compare(eng, ctx, meter, octets, form, label, only=None, both_forms=True, before=()):
+    """runs the real decoder on the (symbolic) octets and compares with the reference; then the other form of the same list.
+    before: messages decoded first in the same process (a decoder must not carry state from one message to the next)"""
     data = SBytes(octets)
-    w = {"meter": meter, "form": form, "data": data, "other_form": bool(both_forms and form == "frame")}
+    w = {"meter": meter, "form": form, "data": data, "other_form": bool(both_forms and form == "frame"), "before": [SBytes(list(b)) for b in before]}
+    for b in before:
+        try:
+            decoder(meter, form)(SBytes(list(b)))
+        except ENGINE_EXC:
+            raise
+        except Exception:
+            pass
     ctx.witness = w
     ctx.nontrivial()
     try:
